@@ -218,7 +218,7 @@ let run_k3_case (prog : program) (line : string) =
          if nb = 0 then false
          else bits.[((nonskip_before (int_of_nat st.pos)) * 5 + (int_of_nat num) * 3 + salt) mod nb] = '1' in
        let orc = { o_pred = (fun num st -> bit 0 num st); o_assert = (fun num st -> bit 1 num st) } in
-       let fuel = nat_of_int (1500 + 40 * n) in
+       let fuel = nat_of_int (3000 + 100 * n) in
        (match parse_entry cx prog orc fuel (nat_of_int entry) (nat_of_int root) (nat_of_int msg_eof) with
         | XPanic _ -> pr "{\"r\":\"panic\"}\n"
         | XFuel -> pr "{\"r\":\"fuel\"}\n"
